@@ -38,7 +38,7 @@
 // projection (keys sorted):
 //  {"alive","bscript":[...],"bst","cscript":[...],"got":[{"a","v"}],"it","loc":{"ctor","dtor"},
 //   "obs":[{"p","r","v"}],"par","pr":{"arg","awaiting","block","caller","done","exp","ifn","ret"}|{},
-//   "aops","cp","mv","val","var":{"id","m"}}
+//   "aops","cp","val","var":{"id","m"}}
 #include <cocls/generator.h>
 #include <cocls/async.h>
 #include <cocls/future.h>
@@ -629,8 +629,8 @@ struct World {
         m.set("par", par_live);
         // payload: copy / move constructions made since the scenario started (V: yielded objects, A: arguments), the
         // body's own variable, and the public view of the current item
-        m.set("cp", V::copies.load());
-        m.set("mv", V::moves.load());
+        m.set("cp", V::copies.load());      // (moves are not compared: whether `return z` in it++ is elided is the compiler's choice;
+                                            //  a move FROM a yielded object shows in its content: "val", "var", later items)
         m.set("aops", A::copies.load() + A::moves.load());
         J var = J::map();
         var.set("id", bvar ? bvar->id : 0);
